@@ -560,17 +560,23 @@ Qed.
 (* ------------------------------------------------------------------------------------------------ *)
 (** * The reference decider *)
 
+Lemma spt_checkr_eq alts p T : spt_checkr alts p T = spt_checkf alts p T.
+Proof. unfold spt_checkr, spt_checkf. apply andb_comm. Qed.
+
+Theorem spt_checkr_correct alts p T : spt_checkr alts p T = true <-> spt_spec alts p T.
+Proof. rewrite spt_checkr_eq. apply spt_checkf_correct. Qed.
+
 Theorem spt_decide_sound alts p : spt_decide alts p = true -> SPT alts p.
 Proof.
   unfold spt_decide. rewrite existsb_exists. intros (T & _ & HT).
-  exists T. apply spt_checkf_correct. exact HT.
+  exists T. apply spt_checkr_correct. exact HT.
 Qed.
 
 Theorem spt_decide_complete alts p : NoDup alts -> SPT alts p -> spt_decide alts p = true.
 Proof.
   intros Hnd (T & HT). destruct (cand_trees_complete alts T Hnd (proj1 HT)) as (T' & Hin & Hs).
   unfold spt_decide. apply existsb_exists. exists T'. split; [exact Hin|].
-  apply spt_checkf_correct. eapply spt_spec_same_graph; eauto.
+  apply spt_checkr_correct. eapply spt_spec_same_graph; eauto.
 Qed.
 
 Theorem spt_decide_correct alts p : NoDup alts -> (spt_decide alts p = true <-> SPT alts p).
@@ -579,7 +585,7 @@ Proof. intros Hnd. split; [apply spt_decide_sound|apply spt_decide_complete; exa
 Lemma spt_decide_slow_eq alts p : spt_decide_slow alts p = spt_decide alts p.
 Proof.
   unfold spt_decide_slow, spt_decide. induction (cand_trees alts) as [|T l IH]; cbn; [reflexivity|].
-  rewrite spt_checkf_eq, IH. reflexivity.
+  rewrite spt_checkr_eq, spt_checkf_eq, IH. reflexivity.
 Qed.
 
 (* ------------------------------------------------------------------------------------------------ *)
@@ -594,7 +600,7 @@ Theorem spt_decide_profile_ext alts p p' :
   (forall v, In v p <-> In v p') -> spt_decide alts p = spt_decide alts p'.
 Proof.
   intros He. unfold spt_decide. induction (cand_trees alts) as [|T l IH]; cbn; [reflexivity|].
-  rewrite IH. f_equal. apply bool_eq_iff. rewrite !spt_checkf_correct.
+  rewrite IH. f_equal. apply bool_eq_iff. rewrite !spt_checkr_correct.
   split; apply spt_spec_profile_incl; intros v; apply He.
 Qed.
 
